@@ -316,6 +316,10 @@ def direct_sections(rec, props: tuple, case: dict, out) -> bool:
 
     chart = out.chart
     be = chart.sync_track.bpm_events
+    if _form_counter % 3 == 1:
+        # the chart's tempo map has been in use (640 un-hinted questions) before sections are decoded against it
+        harness.wear(be)
+        rec.cls("sections_decoded_against_a_tempo_map_that_has_answered_640_questions")
     by_header = {model.header(i, d): (i, d) for i, d in model.ALL_PAIRS}
     ok = True
     for name, body in case["sections"]:
@@ -406,6 +410,9 @@ def constructor_route(rec, props: tuple, case: dict, out, max_notes: int = 400) 
 
     chart = out.chart
     be = chart.sync_track.bpm_events
+    if _ROUTE % 3 == 1:
+        harness.wear(be)
+        rec.cls("notes_built_against_a_tempo_map_that_has_answered_640_questions")
     for key, ttr in case["truth"].get("tracks", {}).items():
         i, d = key.split("/")
         tr = chart.instrument_tracks.get(harness.Instrument[i], {}).get(harness.Difficulty[d])
